@@ -8,12 +8,14 @@ CONSTANTS
   Ctl <- C_close_ping
   Closer = FALSE
   Rd <- R_none
+  Fault <- F_none
   ControlTakesLock = TRUE
   FlushAtomic = TRUE
   LatchChecked = TRUE
   CloseLatches = TRUE
   TimeoutReleases = FALSE
   HandlerControlPath = TRUE
+  TimeoutFaultLatches = TRUE
   Fifo = TRUE
   OnlyBad = FALSE
   Family = "nocloser"
